@@ -41,6 +41,18 @@ def run(cx):
         cx.ob("R21.notifications-mutate", "server|dispatches-" + n, ok,
               "the notification handler %s is not registered with the dispatcher" % n, "crates/isograph_lsp/src/server.rs")
 
+    # ---- R21.buffer-owners: only the editor's notifications change the set of open buffers -------------------------
+    wb = cx.mir("isograph_lsp", "isograph_schema", "isograph_compiler", "isograph_cli", "artifact_content")
+    handler_cone = owner_cone(wb, [wb.one(r"isograph_lsp::text_document::%s$" % n).id for n in hs], crates={"isograph_lsp"})
+    muts = [t for t in wb.calls_to(r"IsographDatabase::<TCompilationProfile>::(insert_open_file|remove_open_file)$")
+            if "::tests::" not in t.fn.id and "/tests/" not in t.fn.file]
+    cx.floor("R21.buffer-owners call sites of insert_open_file / remove_open_file", len(muts), 3)
+    for t in muts:
+        owner = t.fn.root or t.fn.id
+        cx.ob("R21.buffer-owners", "%s|%s" % (owner, (t.callee or "").split("::")[-1]), owner in handler_cone,
+              "the open-file map is changed outside the didOpen / didChange / didClose handlers: an editor buffer is "
+              "dropped or replaced without the editor having said so (e.g. by a file-watcher event), and the server "
+              "answers for other text than a fresh server given the same open buffers", t.fn.loc(t.line))
     # ---- R21.open-file-via-one-reader -----------------------------------------------------------------
     readers = []
     for f in fb.fns.values():
